@@ -262,10 +262,16 @@ impl Store {
         // Only take broadcast subscription if following. We initate the subscription here to
         // ensure we don't miss any messages between historical processing and starting the
         // broadcast subscription.
-        let broadcast_rx = if should_follow {
-            Some(self.broadcast_tx.subscribe())
+        //
+        // The subscription is taken under the append lock together with a fresh id, the
+        // hand-off point: every frame appended before it has a smaller id and is left to the
+        // historical scan, every frame appended after it has a larger id and arrives through
+        // the subscription. Each frame is delivered by exactly one of the two, in id order.
+        let (broadcast_rx, handoff_id) = if should_follow {
+            let _append_guard = self.append_lock.lock().unwrap();
+            (Some(self.broadcast_tx.subscribe()), Some(scru128::new()))
         } else {
-            None
+            (None, None)
         };
 
         #[cfg(xs_verif)]
@@ -286,7 +292,6 @@ impl Store {
             let verif_ticket = crate::verif::expect_thread("history");
             // Spawn OS thread to handle historical events
             std::thread::spawn(move || {
-                let mut last_id = None;
                 #[cfg(xs_verif)]
                 let _verif_scope = crate::verif::thread_scope("history", verif_ticket);
                 // locals are dropped before the scope guard, captured variables after it
@@ -298,14 +303,17 @@ impl Store {
                 let mut count = 0;
 
                 for frame in store.iter_frames(options.context_id, options.last_id.as_ref()) {
+                    // Frames past the hand-off point belong to the live subscription
+                    if handoff_id.is_some_and(|handoff_id| frame.id > handoff_id) {
+                        break;
+                    }
+
                     if let Some(TTL::Time(ttl)) = frame.ttl.as_ref() {
                         if is_expired(&frame.id, ttl) {
                             let _ = gc_tx.send(GCTask::Remove(frame.id));
                             continue;
                         }
                     }
-
-                    last_id = Some(frame.id);
 
                     if let Some(limit) = options.limit {
                         if count >= limit {
@@ -346,8 +354,8 @@ impl Store {
 
                 #[cfg(xs_verif)]
                 crate::verif::point("hist.done", verif_read_id);
-                // Signal completion with the last seen ID and count
-                let _ = done_tx.send((last_id, count));
+                // Signal completion with the count
+                let _ = done_tx.send(count);
             });
 
             Some(done_rx)
@@ -363,12 +371,12 @@ impl Store {
 
                 tokio::spawn(async move {
                     // If we have a done_rx, wait for historical processing
-                    let (last_id, mut count) = match done_rx {
+                    let mut count = match done_rx {
                         Some(done_rx) => match done_rx.await {
-                            Ok((id, count)) => (id, count),
+                            Ok(count) => count,
                             Err(_) => return, // Historical processing failed/cancelled
                         },
-                        None => (None, 0),
+                        None => 0,
                     };
 
                     // The historical replay may already have delivered the whole limit
@@ -391,11 +399,9 @@ impl Store {
                             }
                         }
 
-                        // Skip if we've already seen this frame during historical scan
-                        if let Some(last_scanned_id) = last_id {
-                            if frame.id <= last_scanned_id {
-                                continue;
-                            }
+                        // Skip what was left to the historical scan
+                        if handoff_id.is_some_and(|handoff_id| frame.id <= handoff_id) {
+                            continue;
                         }
 
                         if tx.send(frame).await.is_err() {
